@@ -81,4 +81,19 @@ theorem package_state :
     Generated.Facts.packageVars = ["ErrNoMorePackets", "ErrPCRPIDInvalid", "ErrPESHeaderTooLarge", "ErrPIDAlreadyExists", "ErrPIDNotFound",
       "ErrPacketMustStartWithASyncByte", "bytesPool", "errSkippedPacket", "tableCRC32"] := by decide
 
+/-! ## C07 at the level of `Demux.NextData` — see `Astits/Props/C07NextData.lean`
+
+The `NextData`-level theorems (namespace `Astits.C07` as well) cannot be stated in this file: this file is imported by
+`Props/C02.lean`, hence by `Proofs/MuxDemux.lean` and `Proofs/MuxDemuxNext.lean`, on which their proofs
+(`Proofs/PerPidData.lean`) rest — the import would be circular.  In `Props/C07NextData.lean`:
+
+* `nextData_pid_function` — on any PID, a run of `NextData` calls to the end of the stream delivers
+  `pidData pm₀ pid (s.filter (accepted pid))`, a function of the PID's accepted packets alone, provided that at every call
+  the program map shows the PID the same bit as the reference map (`early`), or the PID is idle during the call;
+* P1 `nextData_es_pid_function`, `nextData_es_pid_indep`, `nextData_es_pid_indep_of_pid_packets`,
+  `nextData_es_pid_interleaved`, `nextData_es_pid_indep_all` — elementary-stream PIDs (`ESPid` at every call);
+* P2 `pidOut_eq_okData`, `nextData_errors_other`, `ex_results_differ` — what is invariant and what is not;
+* P3 `nextData_table_pid_function`, `nextData_table_pid_indep` — PMT PIDs, PAT delivered before the PID's first packet;
+  `nextData_pat_indep` (PID 0, unconditional), `nextData_unlisted_pid_indep`; `ex_pmt_before_pat` — the excluded point. -/
+
 end Astits.C07
